@@ -31,7 +31,9 @@ def script_of(h):
         elif a == "export":
             ops.append("line u1 do %s exp:%s" % (s["from"], s["to"]))
         ops.append("cycle")
-    ops += ["cycle"]
+    # at the end: an object that has given up its euid asks for a file-backed object and for a VIRTUAL one (no file; the
+    # master's compile_object() would make it) - neither may be created
+    ops += ["line u1 do u1 seu:0", "cycle", "line u1 do u1 new:xf:/d1/ob", "cycle", "line u1 do u1 ld:xv:/d1/virt/v1", "cycle", "cycle"]
     return ops
 
 
